@@ -26,6 +26,13 @@ pub trait DirectLDLSolver<T: FloatT>: DirectLDLSolverReqs<T> + HasLinearSolverIn
     #[cfg(clarabel_verif)]
     fn verif_internal_copy(&self) -> Option<(Vec<T>, Vec<usize>)> {
         None
+    }    /// QDLDL backend only: (L.colptr, L.rowval, L.nzval, D, perm, permuted Dsigns, regularize_count, positive_inertia)
+    #[cfg(clarabel_verif)]
+    #[allow(clippy::type_complexity)]
+    fn verif_qdldl_factors(
+        &self,
+    ) -> Option<(Vec<usize>, Vec<usize>, Vec<T>, Vec<T>, Vec<usize>, Vec<i8>, usize, usize)> {
+        None
     }
 }
 
